@@ -1037,6 +1037,7 @@ nlopt_result NLOPT_STDCALL nlopt_optimize(nlopt_opt opt, double *x, double *opt_
         for (i = 0; i < opt->n; ++i)
             if (opt->lb[i] == opt->ub[i] && (x[i] < opt->lb[i] || x[i] > opt->ub[i])) {
                 nlopt_set_errmsg(opt, "bounds %d fail %g <= %g <= %g", i, opt->lb[i], x[i], opt->ub[i]);
+                NLOPT_VERIF_EVENT(2, opt, x, 0.0, (int) NLOPT_INVALID_ARGS);
                 return NLOPT_INVALID_ARGS;
             }
     }
